@@ -181,6 +181,11 @@ class TrainerWorld(World):
             cfg["cell_b"] = {k: alt[k] for k in keys}
             cfg["inshape_b"] = rc.choice([[2], [3]])
             cfg["wseed_b"] = rc.randrange(1 << 30)
+            # a share of the pooled runs: ONE connection feeding two neuron groups - the two cells share the connection (and its updater)
+            cfg["shared_conn"] = stream(seed, "shared_conn").random() < 0.4
+            if cfg["shared_conn"]:
+                cfg["inshape_b"], cfg["wseed_b"] = cfg["inshape"], cfg["wseed"]
+                cfg["apply_via"] = stream(seed, "apply_via").choice(["trainer.update", "layer.update"])
         geom = _Geom(cfg)
         # delays
         needs = trainer in NEEDS_DELAY or trainer.startswith("cross")
@@ -203,6 +208,8 @@ class TrainerWorld(World):
             if pooled:
                 nsyn_b = int(np.prod(cfg["inshape_b"])) * int(np.prod(cfg["outshape"]))
                 cfg["cell_b"]["delay_k"] = [float(rc.randint(0, kmax)) for _ in range(nsyn_b)]
+                if cfg.get("shared_conn"):
+                    cfg["cell_b"]["delay_k"] = list(cfg["delay_k"])      # the same connection, the same learned delays
         if trainer in THREE_FACTOR:
             cfg["reward"] = rc.choice(["scalar", "scalar", "persample"])
             if cfg["reward"] == "persample" and rc.random() < 0.5:
@@ -231,6 +238,9 @@ class TrainerWorld(World):
             op = {"op": "step", "x": x, "y": y}
             if pooled:
                 op["x_b"] = [1 if ro.random() < pin else 0 for _ in range(cfg["B"] * int(np.prod(cfg["inshape_b"])))]
+                if cfg.get("shared_conn"):
+                    yb = stream(seed, f"y_b{t}")
+                    op["y_b"] = [1 if yb.random() < pout else 0 for _ in range(nout)]
                 if trainer in THREE_FACTOR and ro.random() < 0.3:
                     op["only"] = ro.choice(["a", "b"])      # the three-factor trainers can be asked to train a subset of their cells
             if trainer in THREE_FACTOR:
@@ -370,6 +380,8 @@ class TrainerWorld(World):
         cfg = desc["config"]
         if cfg["trainer"].startswith("cross"):
             return self._exec_cross(desc, ctx)
+        if cfg.get("pooled") and cfg.get("shared_conn"):
+            return self._exec_shared(desc, ctx)
         if cfg.get("pooled"):
             return self._exec_pooled(desc, ctx)
         return _Run(self, desc, ctx).run()
@@ -464,6 +476,100 @@ class TrainerWorld(World):
         ctx.nontrivial = nz > 0
         ctx.probe("pooled_two_cells_shared_population")
         ctx.state(("pooled", cfg_a["trainer"], tuple(sorted(cfg_a["cell_b"])), runs[0].mode))
+
+    def _exec_shared(self, desc, ctx):
+        """one trainer, two cells of a Biclique sharing the CONNECTION (one connection feeding two neuron groups): both cells contribute to the
+        same accumulators; the applied change is the sum of what each cell's own hyper-parameters and history give, applied exactly once"""
+        from inferno import neural as nn_
+
+        cfg_a = dict(desc["config"])
+        cfg_b = dict(cfg_a, **cfg_a["cell_b"])
+        runs = [_Run(self, {"config": c, "ops": desc["ops"]}, ctx) for c in (cfg_a, cfg_b)]
+        facts = dict(runs[0].facts, pooled=True, shared_conn=True, apply_via=cfg_a.get("apply_via"), differing=",".join(sorted(cfg_a["cell_b"])))
+        B, dt = cfg_a["B"], cfg_a["dt"]
+        with ctx.impl("build", facts) as reg:
+            _layer, conn, _n = self._build_layer(cfg_a, runs[0].geom)
+            nrns = [_script_neuron(runs[0].geom.outshape, dt, B) for _ in range(2)]
+            layer = nn_.Biclique([("c0", conn)], [("n0", nrns[0]), ("n1", nrns[1])], "sum")
+            trainer = self._build_trainer(cfg_a)
+            for name, r, nn in (("a", runs[0], "n0"), ("b", runs[1], "n1")):
+                _, _, kw = self._trainer_spec(r.cfg)
+                trainer.register_cell(name, layer.get_cell("c0", nn), **kw)
+            layer.train()
+            trainer.train()
+        if reg.waived:
+            return
+        for r, n in zip(runs, nrns):
+            r.conn, r.nrn = conn, n
+            r.reset_model()
+        ctx.log("config", "shared_conn", cfg_a["trainer"], cfg_a["cell_b"], cfg_a.get("apply_via"))
+        three = cfg_a["trainer"] in THREE_FACTOR
+        nz = 0
+        for op in desc["ops"]:
+            if op["op"] == "clear":
+                ctx.fault("trainer_clear")
+                with ctx.impl("trainer.clear", facts):
+                    trainer.clear(**({"keepshape": True} if op.get("keepshape") else {}))
+                    conn.clear()
+                    for n in nrns:
+                        n.clear()
+                for r in runs:
+                    r.reset_model()
+                continue
+            xa = torch.tensor(op["x"]).reshape((B,) + runs[0].geom.inshape).bool()
+            nrns[0].next = torch.tensor(op["y"]).reshape((B,) + runs[0].geom.outshape).bool()
+            nrns[1].next = torch.tensor(op["y_b"]).reshape((B,) + runs[0].geom.outshape).bool()
+            with ctx.impl("layer step", facts):
+                outs = layer({"c0": (xa,)})
+            ctx.step(1, dt)
+            exps = []
+            for r, nn in zip(runs, ("n0", "n1")):
+                pre, post = r.geom.pre(xa), r.geom.post(outs[nn])
+                r.pre_hist.append(pre)
+                tnow = r.t * dt
+                r.last_pre = np.where(pre > 0, tnow, r.last_pre)
+                r.last_post = np.where(post > 0, tnow, r.last_post)
+                try:
+                    exps.append(r.expected(pre, post, op))
+                except _OffGrid:
+                    exps.append(None)
+                r.t += 1
+            p0 = _f64(conn.weight)
+            with ctx.impl("trainer()", facts):
+                if three:
+                    sig = op["signal"]
+                    kw3 = {"cells": [op["only"]]} if op.get("only") else {}
+                    trainer(torch.tensor(sig, dtype=torch.float32) if isinstance(sig, list) else float(sig), scale=op.get("scale", 1.0), **kw3)
+                else:
+                    trainer()
+                # the shared updater is applied exactly once whichever object is asked to apply it
+                if cfg_a.get("apply_via") == "trainer.update":
+                    trainer.update()            # applies every unique updater once; clearing is the caller's business
+                    conn.updater.clear()
+                else:
+                    layer.update()
+            ctx.log("step", xa, outs["n0"], outs["n1"], conn.weight)
+            if any(e is None for e in exps):
+                ctx.undecided += 1      # knife-edge t_delta in one of the cells: the summed change is not judged at this step
+                continue
+            want = np.zeros_like(p0)
+            mag = np.zeros_like(p0)
+            for i, (target, epos, eneg) in enumerate(exps):
+                if op.get("only") and op["only"] != "ab"[i]:
+                    ctx.probe("selective_cells_argument")
+                    continue
+                want = want + (epos - eneg)
+                mag = mag + np.abs(epos) + np.abs(eneg)
+            delta = _f64(conn.weight) - p0
+            tol = 3e-5 + 3e-4 * mag + 2e-6 * np.abs(p0)
+            ctx.judged += 1
+            if np.any(np.abs(delta - want) > tol):
+                j = tuple(np.argwhere(np.abs(delta - want) > tol)[0])
+                ctx.fail("pair_sum", dict(facts, cell="a+b"), f"two cells sharing one connection: weight{j} changed by {delta[j]} but the two cells' hyper-parameters and histories give {want[j]} in total")
+            nz += int(np.any(delta != 0))
+        ctx.nontrivial = nz > 0
+        ctx.probe("pooled_two_cells_shared_connection")
+        ctx.state(("shared_conn", cfg_a["trainer"], tuple(sorted(cfg_a["cell_b"])), runs[0].mode, cfg_a.get("apply_via")))
 
     def _exec_cross(self, desc, ctx):
         """two implementations on twin layers must produce the same updates"""
